@@ -439,14 +439,14 @@ def _bake_cascade(ck, repo):
     # second pass of _bake_types dispatches every composite kind to its member-baking coroutine
     f = repo.func("tartiflette/schema/schema.py", "GraphQLSchema._bake_types")
     fv = FuncView(f)
-    want = {"bake_fields": {("isinstance(type_definition, (GraphQLObjectType, GraphQLInterfaceType, GraphQLUnionType))", "T")},
-            "bake_enum_values": {("isinstance(type_definition, (GraphQLObjectType, GraphQLInterfaceType, GraphQLUnionType))", "F"), ("isinstance(type_definition, GraphQLEnumType)", "T")},
-            "bake_input_fields": {("isinstance(type_definition, (GraphQLObjectType, GraphQLInterfaceType, GraphQLUnionType))", "F"), ("isinstance(type_definition, GraphQLEnumType)", "F"),
-                                  ("isinstance(type_definition, GraphQLInputObjectType)", "T")}}
-    for name, conds in want.items():
+    # the five classes are unrelated: the arms of the dispatch may come in any order
+    own = {"bake_fields": "isinstance(type_definition, (GraphQLObjectType, GraphQLInterfaceType, GraphQLUnionType))",
+           "bake_enum_values": "isinstance(type_definition, GraphQLEnumType)", "bake_input_fields": "isinstance(type_definition, GraphQLInputObjectType)"}
+    for name, test in own.items():
         c = fv.maybe_call(name)
-        ok = c is not None and fv.is_awaited(c) and set(fv.conditions(c)) == conds and len(fv.enclosing_loops(c)) == 1 and unparse(fv.enclosing_loops(c)[0].iter) == "self.type_definitions.values()" \
-            and unparse(c.args[0]) == "self"
+        cs = set(fv.conditions(c)) if c is not None else set()
+        ok = c is not None and fv.is_awaited(c) and (test, "T") in cs and cs - {(test, "T")} <= {(t, "F") for t in own.values() if t != test} \
+            and len(fv.enclosing_loops(c)) == 1 and unparse(fv.enclosing_loops(c)[0].iter) == "self.type_definitions.values()" and unparse(c.args[0]) == "self"
         ck.ob(f"_bake_types: `{name}` is awaited for every type of its kind", ok, f, c or f.node, construct=f"cascade:_bake_types:{name}", detail=str(sorted(fv.conditions(c))) if c is not None else None)
     tb = [c for c in fv.calls("bake") if unparse(c.func.value) == "type_definition"]
     ok = len(tb) == 1 and set(fv.conditions(tb[0])) == {("isinstance(type_definition, GraphQLScalarType)", "F")} and unparse(fv.enclosing_loops(tb[0])[0].iter) == "self.type_definitions.values()"
